@@ -3,7 +3,7 @@
    the abstract state (parameters + the two grading ratios); every read of every reachable state
    returns what the abstract state determines, i.e. what a freshly built object would return. *)
 From Coq Require Import Reals List Bool Lra.
-From DHV Require Import NumOps RInst Interp Fracs Graded SlurryCalc SlurryState.
+From DHV Require Import NumOps RInst Interp Fracs Graded SlurryCalc SlurryState LCommon.
 Import ListNotations.
 Local Open Scope R_scope.
 
@@ -65,11 +65,6 @@ Definition Inv (s : state (T:=R)) (a : astate) : Prop :=
   r15_of (s_gsd s) = a_r15 a /\ r85_of (s_gsd s) = a_r85 a /\
   (gsd_dirty s = false -> s_gsd s = spec_gsd a) /\
   (curves_dirty s = false -> gsd_dirty s = false /\ s_curves s = Some (spec_curves a)).
-
-Lemma truthy_R r : r <> 0 -> truthy RN r = true.
-Proof.
-  intro H. unfold truthy. toR. unfold Reqb. destruct (Req_EM_T r (IZR 0)) as [E|E]; [contradiction|reflexivity].
-Qed.
 
 (* regenerating from a grading that still encodes the current ratios gives the fresh grading *)
 Lemma gen_from_old g D50 Dp nu rhol rhos r15 r85 o15 o85 :
